@@ -158,6 +158,16 @@ def namespace_coherence(g):
         out.append("line({!r}) does not return the line carrying it".format(n))
     except Exception as e:
       out.append("line({!r}) raises {}".format(n, type(e).__name__))
+  for n in names:
+    try:
+      l = g.line(n)
+    except Exception as e:
+      out.append("line({!r}) raises {}".format(n, type(e).__name__))
+      continue
+    if l is None or observe.line_name(l) != n:
+      out.append("names lists {!r}, but line({!r}) is {}".format(
+          n, n, "None" if l is None else "a line named {!r}".format(
+              observe.line_name(l))))
   both = sorted(set(real) & virt)
   if both:
     out.append("{} carried by a line while other lines still refer to a "
